@@ -551,6 +551,16 @@ def thread_difference_explained(cb, k_op, rel, name="condt", extra_imports="", m
         c2.named(b_)
         idx.append(len(c2.ops) - 4)
     variants = ("Exec", "ExecU", "ExecD", "ExecJ", "ExecK")
+    # the model of the multi-threaded solver itself (VanillaMulti.solve_multi at binary64) under four schedules of the
+    # atomic increments; proved equal to the single-threaded model over the reals for every schedule
+    sched_cases = []
+    if o["method"] in ("full", "sampled") and int(o["threads"]) >= 2:
+        for sk in range(4):
+            cs = CaseBuilder(cb.cid, cb.tree, dict(cb.meta))
+            for t in prefixes:
+                a = cs.solve(o["method"], t, b2f(o["max_reg"]), o["threads"], params, o.get("draws"), multi_sched=sk)
+                cs.named(a)
+            sched_cases.append(cs)
     try:
         build_model_j()
         impl = H.run_cases(name, [c2.case()]).get(cb.cid, {})
@@ -560,6 +570,18 @@ def thread_difference_explained(cb, k_op, rel, name="condt", extra_imports="", m
             if r is None:
                 return False, "model run failed (%s)" % mod_
             runs[mod_] = r[1]
+        cancel = None
+        if o["method"] in ("full", "sampled"):
+            cc_ = CaseBuilder(cb.cid, cb.tree, dict(cb.meta))
+            cc_.cancel(o["method"], T, params, o.get("draws"))
+            r = coqrun.run_shards(name + "_c", [cc_.coq()], extra_imports=extra_imports).get(cb.cid)
+            if r is not None and isinstance(r[1][0], dict) and r[1][0].get("tag") == 0:
+                cancel = [float(x) for x in r[1][0]["args"][0]]
+        sched_runs = []
+        for sk, cs in enumerate(sched_cases):
+            r = coqrun.run_shards(name + "_s%d" % sk, [cs.coq()], extra_imports=extra_imports).get(cb.cid)
+            if r is not None:
+                sched_runs.append(r[1])
     except Exception as e:
         return False, "exception %s" % e
     if "ops" not in impl:
@@ -584,10 +606,27 @@ def thread_difference_explained(cb, k_op, rel, name="condt", extra_imports="", m
         if t_jit is None and any(deep_close(runs["Exec"][i + off], runs[m][i + off], rel / 10) is not None
                                  for m in variants[1:] for off in (0, 1)):
             t_jit = t
+    # the schedule runs have two ops per prefix (solve, named); the single-thread model has them at i, i+1
+    t_sched = None
+    for n_, (t, i) in enumerate(zip(prefixes, idx)):
+        if t_sched is None and any(deep_close(runs["Exec"][i + off], sr[2 * n_ + off], rel / 10) is not None
+                                   for sr in sched_runs for off in (0, 1)):
+            t_sched = t
     limit = t_k if t_k is not None else T
     info = ("first budget at which the repetition with %s threads leaves the one-thread run: %s; first budget at which a "
-            "one-ulp perturbation of the model leaves the model: %s" % (o["threads"], t_k, t_jit))
-    return (t_jit is not None and t_jit <= limit), info
+            "one-ulp perturbation of the model leaves the model: %s; first budget at which the model of the multi-threaded "
+            "solver under another schedule of its atomic updates leaves the single-threaded model at binary64: %s"
+            % (o["threads"], t_k, t_jit, t_sched))
+    ok = (t_jit is not None and t_jit <= limit) or (t_sched is not None and t_sched <= limit)
+    if not ok and t_k is None and cancel:
+        # the difference does not come back when the k-thread solve is repeated: it depends on the schedule of the
+        # workers.  If in some iteration a cumulative regret is the result of cancellation (|sum| below 1e-10 of the
+        # magnitudes added, often exactly 0 in the sequential order), its sign -- on which regret matching branches --
+        # is decided by the order of the atomic additions: "up to floating-point summation order".
+        t_c = next((k_ + 1 for k_, x in enumerate(cancel) if x <= 1e-10), None)
+        info += "; first iteration in which some cumulative regret is a cancelled sum (ratio <= 1e-10): %s" % t_c
+        ok = t_c is not None and t_c <= T
+    return ok, info
 
 
 def ill_conditioned(cb, impl, rel, name="cond", trials=4, eps=1e-13):
